@@ -263,6 +263,24 @@ def main():
             c = dict(base, stop=None, opts={"max_diameter": d, "return_all_hashes": True, "max_layer_size_to_store": 2})
             ck.guard(run_case, ck, c)
             ck.count("limit-sweep")
+    # directed graphs with 35..140 layers in which old layers are re-entered from much later ones, under every stopping rule
+    for _ in range(4 if not ck.thorough else 40):
+        if ck.enough():
+            break
+        gd = graphs.many_layer_directed_def(ck.rng, 34, 139)
+        layers = gd.brute_layers(cap=3000)
+        ecc = len(layers) - 1
+        cfg = graphs.gen_cfg(ck.rng, gd)
+        cfg["batch_size"] = ck.rng.choice([3, 50, 2**20])
+        opts = {"max_layer_size_to_store": ck.rng.choice([None, 2, 1000]), "return_all_hashes": ck.rng.random() < 0.6, "return_all_edges": False, "disable_batching": ck.rng.random() < 0.3}
+        stop = None
+        r = ck.rng.random()
+        if r < 0.4:
+            opts["max_diameter"] = ck.rng.choice([33, 34, 36, 65, 66, ecc - 1, ecc, ecc + 2])
+        elif r < 0.7:
+            stop = ["at", ck.rng.choice([33, 35, 64, 66, ecc])]
+        ck.guard(run_case, ck, {"gd": gd.to_json(), "cfg": cfg, "opts": opts, "starts": None, "stop": stop, "stop_flavour": "bool"})
+        ck.count("many-layer directed graphs")
     ck.assumptions = ["hash injective on the explored set (hook H2); callbacks drawn from the families at/size/has/never"]
     ck.finish(
         rule="definitions as C01 with at least 3 layers x limits at/below/above the truth (depth, layer size, callbacks at/size/has/never, coinciding limits) x output options; "
